@@ -1,5 +1,5 @@
 ENGINES = [
- {"name": "vsim", "path": "vsim/", "serves_properties": ["C14", "C15"],
+ {"name": "vsim", "path": "vsim/", "serves_properties": ["C14", "C15", "C16"],
   "kind_free_text": "deterministic simulator written for this task: seeded PRNG per run, simulated wall/monotonic clock, real tmpfs "
                     "file system behind seams that count, fail, tear and crash every call, fork-per-run driver with watchdogs, "
                     "delta-debugging shrinker, replay files; engines/ hold one workload+oracle per property, models/ the reference models"},
@@ -11,7 +11,6 @@ def fill(check, pending):
     pending.update({
      "C08": "engine not built yet in this commit (planned: DESIGN.md section 3/C08); not claimed until it is",
      "C13": "engine not built yet in this commit (planned: DESIGN.md section 3/C13); not claimed until it is",
-     "C16": "engine not built yet in this commit (planned: DESIGN.md section 3/C16); not claimed until it is",
      "C17": "engine not built yet in this commit (planned: DESIGN.md section 3/C17); not claimed until it is",
     })
     check("C14", "exploration",
@@ -34,3 +33,14 @@ def fill(check, pending):
           "Crash granularity = the file-system calls Mako itself makes (importlib's bytecode writes are not crash points); histories "
           "are sampled, crash points per sampled history are exhaustive; power loss (unsynced data) out of scope.",
           "deterministic simulation: crash-point enumeration + fault injection + lock-step process schedules", "DESIGN.md 3/C15")
+    check("C16", "exploration",
+          "2-3 real threads (plus a file-editing writer actor) on one TemplateLookup, parked and released one at a time by a "
+          "seeded scheduler at every lock operation, I/O seam call, Template construction boundary and traced line (opcodes in "
+          "hot functions); strategies: random walk biased to shared-state code, PCT, pre-emption bounded (<= 3), round robin, "
+          "stalled thread, and a systematic sweep that pre-empts one thread at EVERY one of its shared-state points in turn. "
+          "The recorded history (invoke/return stamped with the scheduler's global step) is checked for: documented exceptions "
+          "only, completely constructed results, freshness relative to the call's start, compile-once/same-object for "
+          "simultaneous first requests, per-thread render output, LRU bound at every scheduling point, no deadlock / leaked lock.",
+          "Line-level pre-emption is a subset of CPython's real schedules (no false interleavings) but not all of them; "
+          "Beaker's real locks are replaced by a lock-free reference cache backend; sampling, not proof.",
+          "deterministic simulation: seeded thread schedules (baton passing at intercepted points) + history check", "DESIGN.md 3/C16")
